@@ -156,6 +156,17 @@ type sys struct {
 	last  *tpb.Configuration
 	// absolute: the alphabet carries absolute revisions, so the current revision is part of the state
 	absolute bool
+	// lastShape: which kinds of handler calls (add / update / delete) the last
+	// accepted load made. Part of the canonical state: an implementation may keep
+	// derived bookkeeping that depends on what the previous load changed (a cache
+	// built only by a load that added or removed nothing) and that Current()
+	// does not show.
+	lastShape string
+	shapeKey  bool
+	// histKey: the whole history of operations is the state (no merging): for
+	// bookkeeping that depends on more than the previous load.
+	histKey bool
+	hist    []int
 	// edit: read-modify-write - the caller builds every configuration by editing,
 	// in place, the object Current() handed it (maps included). What Current()
 	// returns belongs to the caller: editing it, and having the edit rejected,
@@ -207,6 +218,7 @@ func valid(c *tpb.Configuration) bool {
 
 func (s *sys) Apply(i int) []seqmc.Violation {
 	o := s.ops[i]
+	s.hist = append(s.hist, i)
 	cfg := o.cfg()
 	if cfg != nil {
 		cfg.Revision = s.rev + int64(o.rev)
@@ -347,6 +359,11 @@ func (s *sys) Apply(i int) []seqmc.Violation {
 	s.loaded = true
 	s.rejected = nil
 	s.last = cfg
+	kinds := map[string]bool{}
+	for _, c := range s.calls {
+		kinds[c.kind] = true
+	}
+	s.lastShape = fmt.Sprintf("add=%v update=%v delete=%v", kinds["add"], kinds["update"], kinds["delete"])
 	return nil
 }
 
@@ -362,6 +379,9 @@ func keys(m map[string]repEntry) []string {
 // Key: the accepted configuration without its absolute revision (only the
 // relation of a load's revision to the current one is observable).
 func (s *sys) Key() string {
+	if s.histKey {
+		return fmt.Sprint(s.hist)
+	}
 	c := s.c.Current()
 	if c == nil {
 		var rj []string
@@ -386,10 +406,18 @@ func (s *sys) Key() string {
 		rj = append(rj, k)
 	}
 	sort.Strings(rj)
-	return fmt.Sprintf("%x|%s|%v|%v", b, strings.Join(r, ","), s.loaded, rj)
+	shape := ""
+	if s.shapeKey || allShapes {
+		shape = s.lastShape
+	}
+	return fmt.Sprintf("%x|%s|%v|%v|%s", b, strings.Join(r, ","), s.loaded, rj, shape)
 }
 
 var fullMemory bool
+
+// allShapes: every spec keeps the shape of the last accepted load in its
+// canonical state (thorough); quick: the plain NewConfig specs only.
+var allShapes bool
 
 type harness struct{}
 
@@ -433,6 +461,44 @@ func extSpecOf() seqmc.Spec {
 	return seqmc.Spec{Name: "from NewConfig 2 targets, request r1 also with an extension outside its subscription list (closure)", Ops: names, Depth: 30, New: func() seqmc.Sys { fullMemory = false; return newSys(ops, false, false) }}
 }
 
+// historiesSpec: every history of <=depth ACCEPTED loads over a small universe
+// (two requests with two contents each, t1 on either request, t2 absent or on
+// either request; every load at the next revision), the history itself being
+// the state: nothing is merged, so bookkeeping an implementation derives from
+// several past loads (which requests are in use, what was compared last time)
+// is exercised in every order.
+func historiesSpec(depth int) seqmc.Spec {
+	var ops []loadOp
+	var names []string
+	for _, r1 := range []string{"A", "B"} {
+		for _, r2 := range []string{"A", "B"} {
+			for _, t1 := range []string{"x|r1", "x|r2"} {
+				for _, t2 := range []string{"", "x|r1", "x|r2"} {
+					r1, r2, t1, t2 := r1, r2, t1, t2
+					o := loadOp{name: fmt.Sprintf("r1=%s r2=%s t1=%s t2=%s rev+1", r1, r2, t1, t2), rev: 1, cfg: func() *tpb.Configuration {
+						c := &tpb.Configuration{Request: map[string]*gpb.SubscribeRequest{"r1": request(r1), "r2": request(r2)}, Target: map[string]*tpb.Target{}}
+						for n, t := range map[string]string{"t1": t1, "t2": t2} {
+							if t != "" {
+								p := strings.Split(t, "|")
+								c.Target[n] = &tpb.Target{Addresses: []string{p[0]}, Request: p[1]}
+							}
+						}
+						return c
+					}}
+					ops = append(ops, o)
+					names = append(names, o.name)
+				}
+			}
+		}
+	}
+	return seqmc.Spec{Name: fmt.Sprintf("every history of <=%d accepted loads over 24 configurations (2 requests x 2 contents, t1/t2 on either), the history is the state", depth), Ops: names, Depth: depth, New: func() seqmc.Sys {
+		fullMemory = false
+		s := newSys(ops, false, false)
+		s.histKey = true
+		return s
+	}}
+}
+
 func (harness) Specs(tier string) []seqmc.Spec {
 	ex := extremes()
 	var exNames []string
@@ -450,7 +516,12 @@ func (harness) Specs(tier string) []seqmc.Spec {
 			names = append(names, o.name)
 		}
 		return []seqmc.Spec{
-			{Name: "from NewConfig " + label + " (closure)", Ops: names, Depth: 30, New: func() seqmc.Sys { fullMemory = full; return newSys(ops, false, false) }},
+			{Name: "from NewConfig " + label + ", state includes what the previous load changed (closure)", Ops: names, Depth: 30, New: func() seqmc.Sys {
+				fullMemory = full
+				s := newSys(ops, false, false)
+				s.shapeKey = true
+				return s
+			}},
 			{Name: "from NewConfigWithBase " + label + " (closure)", Ops: names, Depth: 30, New: func() seqmc.Sys { fullMemory = full; return newSys(ops, true, false) }},
 			{Name: "from NewConfig " + label + ", unchanged messages carried over by pointer (closure)", Ops: names, Depth: 30, New: func() seqmc.Sys { fullMemory = full; return newSys(ops, false, true) }},
 			{Name: "from NewConfigWithBase " + label + ", unchanged messages carried over by pointer (closure)", Ops: names, Depth: 30, New: func() seqmc.Sys { fullMemory = full; return newSys(ops, true, true) }},
@@ -462,6 +533,7 @@ func (harness) Specs(tier string) []seqmc.Spec {
 			}},
 		}
 	}
+	allShapes = tier == "thorough"
 	if tier == "thorough" {
 		// every (validity, revision relation) class of rejected loads remembered on
 		// the 2-target universe; the 3-target universe with the quick memory
@@ -471,7 +543,7 @@ func (harness) Specs(tier string) []seqmc.Spec {
 			sharedNames = append(sharedNames, o.name)
 		}
 		sharedSpec := seqmc.Spec{Name: "from NewConfig 2 targets NAMED LIKE the requests r1, r2 (closure)", Ops: sharedNames, Depth: 30, New: func() seqmc.Sys { fullMemory = false; return newSys(sharedOps, false, false) }}
-		return append(append(append(append(mk("2 targets, full rejected-load memory", universe(false), true), mk("3 targets", universe(true), false)...), sharedSpec), extSpecOf()), exSpec)
+		return append(append(append(append(append(mk("2 targets, full rejected-load memory", universe(false), true), mk("3 targets", universe(true), false)...), sharedSpec), extSpecOf()), exSpec), historiesSpec(5))
 	}
 	// target names that are also request names (per-device requests named after the device)
 	sharedOps := universe(false, "r1", "r2", "t3")
@@ -480,7 +552,7 @@ func (harness) Specs(tier string) []seqmc.Spec {
 		sharedNames = append(sharedNames, o.name)
 	}
 	sharedSpec := seqmc.Spec{Name: "from NewConfig 2 targets NAMED LIKE the requests r1, r2 (closure)", Ops: sharedNames, Depth: 30, New: func() seqmc.Sys { fullMemory = false; return newSys(sharedOps, false, false) }}
-	return append(append(append(mk("2 targets", universe(false), false), sharedSpec), extSpecOf()), exSpec)
+	return append(append(append(append(mk("2 targets", universe(false), false), sharedSpec), extSpecOf()), exSpec), historiesSpec(4))
 }
 
 func main() { seqmc.Main(harness{}) }
